@@ -406,6 +406,56 @@ def validator_facts(repo):
     return F
 
 
+def write_facts(repo):
+    """F14: every statement in the normalization functions that writes through `mapping` or `schema`:
+    (function, root, depth of the written container below the root, was mapping[field] re-bound to a copy earlier in the function)"""
+    mod = parse(repo, 'cerberus/validator.py')
+    bv = find_class(mod, 'BareValidator')
+    sites = []
+
+    def root_depth(node):
+        # target expression  root[...][...] -> (root, number of subscripts)
+        d = 0
+        while isinstance(node, ast.Subscript):
+            node = node.value
+            d += 1
+        if isinstance(node, ast.Name):
+            return node.id, d
+        return None, d
+    for fn in bv.body:
+        if not isinstance(fn, ast.FunctionDef) or 'normalize' not in fn.name or fn.name == 'normalized':
+            continue
+        copied_at = None
+        stmts = list(ast.walk(fn))
+        for st in stmts:
+            if isinstance(st, ast.Assign) and ast.unparse(st) == "mapping[field] = copy(mapping[field])":
+                copied_at = st.lineno
+        for st in stmts:
+            targets = []
+            if isinstance(st, ast.Assign):
+                targets = [(t, 'assign') for t in st.targets]
+            elif isinstance(st, ast.AugAssign):
+                targets = [(st.target, 'augassign')]
+            elif isinstance(st, ast.Delete):
+                targets = [(t, 'del') for t in st.targets]
+            elif isinstance(st, ast.Call) and isinstance(st.func, ast.Attribute) and st.func.attr in ('pop', 'update', 'clear', 'setdefault', 'popitem', 'append', 'extend', 'insert', 'remove'):
+                r, d = root_depth(st.func.value)
+                if r in ('mapping', 'schema'):
+                    sites.append((demangle(fn.name), r, d, bool(copied_at and copied_at < st.lineno), st.func.attr))
+                continue
+            for t, kind in targets:
+                if not isinstance(t, ast.Subscript):
+                    continue
+                r, d = root_depth(t)
+                if r in ('mapping', 'schema'):
+                    sites.append((demangle(fn.name), r, d - 1, bool(copied_at and copied_at < st.lineno), kind))
+    # the document is copied on entry and the schema before reference resolution
+    ip = ast.unparse(find_func(bv, '__init_processing'))
+    nm = ast.unparse(find_func(bv, '__normalize_mapping'))
+    return {"write_sites": sorted(set(sites)), "entry_copies_document": "self.document = copy(document)" in ip,
+            "schema_copied_before_resolution": "schema = schema.copy()" in nm}
+
+
 def cache_facts(repo):
     """F21: cache key shape per site (schema.py) and the freezer's scalar case (utils.py)"""
     mod = parse(repo, 'cerberus/schema.py')
@@ -509,7 +559,9 @@ def to_coq(F):
     L.append("  f_cache_sites := %s;" % clist("(%s, %s)" % (cs(a), cs(b)) for a, b in F['cache_sites']))
     L.append("  f_cache_typed_scalars := %s;" % ("true" if F['cache_typed_scalars'] else "false"))
     L.append("  f_cache_per_class := %s;" % ("true" if F['cache_per_class'] else "false"))
-    L.append("  f_handler_add_copies := %s" % ("true" if F['handler_add_copies'] else "false"))
+    L.append("  f_handler_add_copies := %s;" % ("true" if F['handler_add_copies'] else "false"))
+    L.append("  f_write_sites := %s;" % clist("(%s, %s, %d%%nat, %s)" % (cs(a), cs(b), d, "true" if c else "false") for a, b, d, c, k in F['write_sites']))
+    L.append("  f_entry_copies := %s" % ("true" if (F['entry_copies_document'] and F['schema_copied_before_resolution']) else "false"))
     L.append("|}.")
     return "\n".join(L) + "\n"
 
@@ -519,6 +571,7 @@ def translate(repo):
     F.update(errors_facts(repo))
     F.update(validator_facts(repo))
     F.update(cache_facts(repo))
+    F.update(write_facts(repo))
     F.update(introspect(repo))
     return F
 
